@@ -524,18 +524,19 @@ func (c *DnsCache) GetPackedResponseWithApproximateTTL(qname string, qtype uint1
 		currentTTL = 1
 	}
 
-	// Lock-free read: atomic pointer load (no mutex, no blocking)
-	packedPtr := c.packedResponse.Load()
-	if packedPtr != nil && *packedPtr != nil {
-		// Use cached response if TTL difference is within threshold
-		cachedTTL := c.packedResponseTTL.Load()
+	withinTolerance := func(cachedTTL uint32) bool {
 		if cachedTTL >= currentTTL {
-			if cachedTTL-currentTTL <= ttlRefreshThresholdSeconds {
-				return *packedPtr
-			}
-		} else if currentTTL-cachedTTL <= ttlRefreshThresholdSeconds {
-			return *packedPtr
+			return cachedTTL-currentTTL <= ttlRefreshThresholdSeconds
 		}
+		return currentTTL-cachedTTL <= ttlRefreshThresholdSeconds
+	}
+
+	// Lock-free read. The writer stores the bytes first and their TTL second, so the
+	// TTL is loaded first here: a TTL within tolerance implies bytes at least as new.
+	cachedTTL := c.packedResponseTTL.Load()
+	packedPtr := c.packedResponse.Load()
+	if packedPtr != nil && *packedPtr != nil && withinTolerance(cachedTTL) {
+		return *packedPtr
 	}
 
 	// Slow path: refresh pre-packed response with new TTL
@@ -552,9 +553,12 @@ func (c *DnsCache) GetPackedResponseWithApproximateTTL(qname string, qtype uint1
 		}
 	}
 
-	// Return current response (might be slightly stale, but acceptable)
+	// Another goroutine may still be re-packing (it won the CAS above): the bytes we
+	// can see then carry a TTL that is out of tolerance. Returning nil makes the caller
+	// fall back to the exact in-place fill instead of overstating the TTL.
+	cachedTTL = c.packedResponseTTL.Load()
 	packedPtr = c.packedResponse.Load()
-	if packedPtr == nil || *packedPtr == nil {
+	if packedPtr == nil || *packedPtr == nil || !withinTolerance(cachedTTL) {
 		return nil
 	}
 	return *packedPtr
